@@ -12,16 +12,22 @@
 (***************************************************************************)
 EXTENDS Naturals, Sequences, FiniteSets, TLC, Json, Randomization
 
-CONSTANTS Templates, NFields, Phases, Mode, MaxSeq, Sample, JunkKinds
+CONSTANTS Templates, NFields, Phases, Mode, MaxSeq, Sample, JunkKinds,
+          HeaderF       \* template -> the numbers of its fields that belong to the datagram header
 
 Ops == {"drop", "null", "empty", "bogus", "wrongkind", "swap", "zero"}     \* zero: the zero value of the field's kind
 Mut(f, op) == [f |-> f, op |-> op]
-Delivery(t, muts, j) == [tmpl |-> t, muts |-> muts, junk |-> j, src |-> "own"]
+Delivery(t, muts, j) == [tmpl |-> t, muts |-> muts, junk |-> j, src |-> "own", dst |-> "own"]
 \* the messages that change the device tree are also delivered with another announced feature of the peer as their source
 TreeTemplates == {"discReply", "discNotifyAdd", "discNotifyRemove", "discNotifyFull"}
 AltSrc(ds) == {[d EXCEPT !.src = "alt"] : d \in ds}
 Singles0(t) == {Delivery(t, {Mut(f, op)}, 0) : f \in 1..NFields[t], op \in Ops}
+\* every single mutation of a header field is also delivered addressed to a feature the local device does not have
+\* (two defects at once: the error path for the one must cope with the other)
+AltDst(ds) == {[d EXCEPT !.dst = "alt"] : d \in ds}
+HeaderSingles(t) == {Delivery(t, {Mut(f, op)}, 0) : f \in HeaderF[t], op \in Ops}
 Singles(t) == Singles0(t) \cup (IF t \in TreeTemplates THEN AltSrc(Singles0(t) \cup {Delivery(t, {}, 0)}) ELSE {})
+                         \cup AltDst(HeaderSingles(t))
 Pairs(t) == {Delivery(t, {Mut(f1, o1), Mut(f2, o2)}, 0) : f1 \in 1..NFields[t], f2 \in 1..NFields[t], o1 \in Ops, o2 \in Ops}
 \* a seeded sample of Pairs(t), drawn constructively (the whole set has up to 125 x 125 x 49 elements per template)
 PairSample(t) == {Delivery(t, {Mut(RandomElement(1..NFields[t]), RandomElement(Ops)), Mut(RandomElement(1..NFields[t]), RandomElement(Ops))}, 0) : i \in 1..Sample}
